@@ -109,4 +109,77 @@ theorem check_sound (t : Tables) (h : check t = true) :
     have hc : n ∉ t.creation := fun h => c1 n h hn
     simp [kindOf, hc, hnr, hn]
 
+/-! ### which attributes of `jax.Array` are lifted onto `BlockArray` (`_blockarray.py`: `da_props`, `da_methods`) -/
+
+/-- one public attribute of the jax array type, as `inspect.getmembers` reports it -/
+structure Member where
+  name : String
+  isProp : Bool       -- `isinstance(v, property)`
+  isCallable : Bool   -- `isinstance(v, Callable)`
+
+structure AttrTables where
+  /-- public attributes (`k[0] != "_"`) of `type(jnp.array([0]))` -/
+  members : List Member
+  /-- public names `BlockArray` defines itself (class body) — `dir(BlockArray)` before the lifting -/
+  ownNames : List String
+  skipProps : List String
+  skipMethods : List String
+  /-- the conjuncts of the two list-comprehension conditions, as source text -/
+  propConds : List String
+  methodConds : List String
+  /-- the lists the translator computed by the code's rule (compared with the running code by the harness) -/
+  expectedProps : List String
+  expectedMethods : List String
+
+/-- `da_props`: `isinstance(v, property) and k[0] != "_" and k not in dir(BlockArray) and k not in skip_props` -/
+def liftedProps (t : AttrTables) : List String :=
+  (t.members.filter (fun m => m.isProp && !(t.ownNames.contains m.name) && !(t.skipProps.contains m.name))).map Member.name
+
+/-- `da_methods`: computed after the properties were set on the class, so `dir(BlockArray)` contains them -/
+def liftedMethods (t : AttrTables) : List String :=
+  (t.members.filter (fun m => m.isCallable && !(t.ownNames.contains m.name) &&
+      !((liftedProps t).contains m.name) && !(t.skipMethods.contains m.name))).map Member.name
+
+def expectedPropConds : List String :=
+  ["isinstance(v, property)", "k[0] != '_'", "k not in dir(BlockArray)", "k not in skip_props"]
+def expectedMethodConds : List String :=
+  ["isinstance(v, Callable)", "k[0] != '_'", "k not in dir(BlockArray)", "k not in skip_methods"]
+
+/-- properties the documentation shows on block arrays / the library reads from them -/
+def requiredProps : List String := ["shape", "size", "ndim", "T", "real", "imag"]
+/-- methods the library itself calls on block arrays (`ravel` in the full reductions, `astype` in
+    `solver.minimize`, `conj` in `cg`, …) -/
+def requiredMethods : List String :=
+  ["ravel", "reshape", "conj", "conjugate", "astype", "sum", "flatten", "copy", "transpose"]
+
+def checkAttrs (t : AttrTables) : Bool :=
+  (t.propConds == expectedPropConds) && (t.methodConds == expectedMethodConds) &&
+  (liftedProps t == t.expectedProps) && (liftedMethods t == t.expectedMethods) &&
+  subset requiredProps (liftedProps t) && subset requiredMethods (liftedMethods t) &&
+  disjoint (liftedProps t) (liftedMethods t) &&
+  t.ownNames.contains "dtype" && !((liftedProps t).contains "at")
+
+theorem checkAttrs_sound (t : AttrTables) (h : checkAttrs t = true) :
+    -- the comprehension conditions are the modelled ones and give the listed names
+    t.propConds = expectedPropConds ∧ t.methodConds = expectedMethodConds ∧
+    liftedProps t = t.expectedProps ∧ liftedMethods t = t.expectedMethods ∧
+    -- the promised attributes are lifted, each in one way only
+    (∀ n ∈ requiredProps, n ∈ liftedProps t) ∧ (∀ n ∈ requiredMethods, n ∈ liftedMethods t) ∧
+    (∀ n ∈ liftedProps t, n ∉ liftedMethods t) ∧
+    -- `x.dtype` is the block array's own (one dtype), `x.at` is not lifted
+    "dtype" ∈ t.ownNames ∧ "dtype" ∉ liftedProps t ∧ "at" ∉ liftedProps t := by
+  simp only [checkAttrs, Bool.and_eq_true, beq_iff_eq, Bool.not_eq_true', List.contains_iff_mem] at h
+  obtain ⟨⟨⟨⟨⟨⟨⟨⟨h1, h2⟩, h3⟩, h4⟩, h5⟩, h6⟩, h7⟩, h8⟩, h9⟩ := h
+  refine ⟨h1, h2, h3, h4, subset_iff.1 h5, subset_iff.1 h6, disjoint_iff.1 h7, h8, ?_, ?_⟩
+  · intro hm
+    simp only [liftedProps, List.mem_map, List.mem_filter, Bool.and_eq_true, Bool.not_eq_true',
+      List.contains_iff_mem] at hm
+    obtain ⟨m, ⟨_, ⟨_, hown⟩, _⟩, hn⟩ := hm
+    rw [hn] at hown
+    have : ("dtype" ∈ t.ownNames) := h8
+    simp [List.contains_iff_mem, this] at hown
+  · intro hm
+    rw [List.contains_iff_mem.2 hm] at h9
+    exact absurd h9 (by simp)
+
 end Scico.Block.Lists
